@@ -86,7 +86,7 @@ def decode_ref(rdir, pdu):
     return (pdus.req_to_json if rdir == 'server' else pdus.resp_to_json)(o)
 
 
-def corruptions(rng, frame, quick):
+def corruptions(rng, frame, quick, name=None):
     n = len(frame)
     out = []
     bits = list(range(8 * n))
@@ -108,6 +108,23 @@ def corruptions(rng, frame, quick):
             if pat >> k & 1 and t < 8 * n:
                 f[t // 8] ^= 1 << (t % 8)
         out.append(('burst16', f))
+    # the checksum FIELD as a whole: inverted, all zeros, all ones (given as the trailing bytes before the end marker; for ASCII
+    # the two hex characters) - the extreme check values are values like any other
+    if name in ('rtu', 'binary', 'ascii'):
+        a, b = {'rtu': (n - 2, n), 'binary': (n - 3, n - 1), 'ascii': (n - 4, n - 2)}[name]
+        if a > 0:
+            if name == 'ascii':
+                try:
+                    v = int(bytes(frame[a:b]).decode(), 16)
+                    for w in (v ^ 0xFF, 0x00, 0xFF):
+                        if w != v:
+                            out.append(('check-field', frame[:a] + list(('%02X' % w).encode()) + frame[b:]))
+                except ValueError:
+                    pass
+            else:
+                for w in ([x ^ 0xFF for x in frame[a:b]], [0, 0], [0xFF, 0xFF]):
+                    if w != frame[a:b]:
+                        out.append(('check-field', frame[:a] + w + frame[b:]))
     for i in range(n):
         f = list(frame)
         f[i] = rng.choice([0, 0xFF, 58, 13, 10, 0x7B, 0x7D, f[i] ^ 0x20, rng.randrange(256)])
@@ -128,7 +145,7 @@ def check_frames(ctx, rep, name, direction, frames):
     rdir = 'server' if direction == 'req' else 'client'
     q, meta = [], []
     for uid, frame, other in frames:
-        for kind, bad in corruptions(ctx.rng, frame, ctx.quick):
+        for kind, bad in corruptions(ctx.rng, frame, ctx.quick, name):
             ctxt = ctx.rng.choice(['alone', 'before', 'after', 'after-foreign', 'after-intact'])
             if ctxt == 'after-intact':
                 # the INTACT frame itself first (verified, delivered), then its damaged copy: nothing a receiver remembers of a
@@ -197,6 +214,38 @@ def gen_frames(rng, name, direction, n):
     return out
 
 
+def extreme_check_frames(name, direction):
+    """valid write-register frames (unit 1) whose checksum is all zeros / all ones: found by search over the register value
+    (LRC: 1 in 256; CRC-16: 1 in 65 536 - the address is searched too)"""
+    out = []
+    want = {(0, 0), (0xFF, 0xFF)} if name != 'ascii' else {'00', 'FF'}
+    for addr in range(0, 4):
+        for val in range(0, 65536, 1 if name != 'ascii' else 1):
+            m = {'t': 'writeRegister', 'address': addr, 'value': val}
+            f = serverlib_frame(name, m, direction)
+            if f is None:
+                continue
+            key = tuple(f[-2:]) if name == 'rtu' else tuple(f[-3:-1]) if name == 'binary' else bytes(f[-4:-2]).decode()
+            if key in want:
+                want.discard(key)
+                out.append((1, f, f))
+            if not want or (name == 'ascii' and val > 2000):
+                break
+        if not want:
+            break
+    return out
+
+
+def serverlib_frame(name, m, direction):
+    f = framelib.real_build(name, direction, m, 1, 0, 0)
+    if isinstance(f, dict) or (name == 'binary' and framelib.has_delim(f)):
+        return None
+    return f
+
+
+_EXTREME = {}
+
+
 def run(ctx):
     rep = Report(RULE)
     rng = ctx.rng
@@ -212,6 +261,13 @@ def run(ctx):
             for d in framelib.deliveries(calls):
                 if (d['uid'], d['msg']) not in justified:
                     rep.violation('a message was delivered that no valid frame in the received bytes justifies', c, delivered=d)
+    for name in ('ascii', 'rtu', 'binary'):
+        for direction in ('req', 'resp'):
+            if (name, direction) not in _EXTREME:
+                _EXTREME[(name, direction)] = extreme_check_frames(name, direction)
+            if _EXTREME[(name, direction)]:
+                rep.hist['extreme-check-value-frames:%s' % name] += len(_EXTREME[(name, direction)])
+                check_frames(ctx, rep, name, direction, _EXTREME[(name, direction)])
     rounds = ctx.scale(8, 80)
     for _ in range(rounds):
         for name in framelib.STREAM_FRAMERS:
